@@ -344,7 +344,9 @@ PartsPage(S, m2, max, http) ==
 \* a case: kind, keys (objects), prog (versions), ups (uploads, creation order),
 \* parts (upload order), prefix, delim, max
 UplSet(c) == {[k |-> c.ups[i], v |-> i] : i \in 1..Len(c.ups)}
-ApisOf(kind) == CASE kind = "objects"  -> <<"store", "v1", "v2">>
+\* ListObjects through HTTP: v1 marker, v2 continuation-token, v2 start-after
+HttpObjApis == {"v1", "v2", "v2s"}
+ApisOf(kind) == CASE kind = "objects"  -> <<"store", "v1", "v2", "v2s">>
                   [] kind = "versions" -> <<"store", "http", "v2">>
                   [] kind = "uploads"  -> <<"store", "http">>
                   [] kind = "parts"    -> <<"store", "http">>
@@ -354,7 +356,7 @@ KeySetOf(c) == IF c.kind = "versions" THEN Visible(History(c.prog).rows)
 
 ModelPage(c, api, m1, m1set, m2, D) ==
   LET mk == IF m1set THEN m1 ELSE <<>> IN
-  IF api \in {"v1", "v2"} THEN HttpObjectsPage(KeySetOf(c), c.prefix, c.delim, m1, m1set, c.max, D)
+  IF api \in HttpObjApis THEN HttpObjectsPage(KeySetOf(c), c.prefix, c.delim, m1, m1set, c.max, D)
   ELSE CASE c.kind = "objects"  -> StoreObjectsPage(KeySetOf(c), c.prefix, c.delim, mk, c.max, D)
          [] c.kind = "versions" -> VersionsPage(History(c.prog).rows, c.prefix, c.delim, mk, m2, c.max, D, api = "http")
          [] c.kind = "uploads"  -> IF api = "store"
@@ -389,7 +391,7 @@ ExpectedCps(keys, p, dl)  == SortKeys({S3CP(p, k, dl) : k \in {x \in keys : IsPr
 
 \* what a complete run must have yielded: the entry sequence and the common prefixes
 ExpectedEntries(c, api) ==
-  IF api \in {"v1", "v2"} \/ c.kind = "objects"
+  IF api \in HttpObjApis \/ c.kind = "objects"
   THEN MapSeq(ExpectedKeys(KeySetOf(c), c.prefix, c.delim), KeyEnt)
   ELSE CASE c.kind = "versions" ->
               MapSeq(SetToSortSeq({r \in History(c.prog).rows : IsPrefix(c.prefix, r.k) /\ ~S3Grouped(c.prefix, r.k, c.delim)},
@@ -399,7 +401,7 @@ ExpectedEntries(c, api) ==
          [] c.kind = "parts" ->
               MapSeq(SetToSortSeq({c.parts[i] : i \in 1..Len(c.parts)}, LAMBDA a, b : a < b), LAMBDA n : Ent(<<>>, n, FALSE))
 AllKeysOf(c, api) ==
-  IF api \in {"v1", "v2"} \/ c.kind = "objects" THEN KeySetOf(c)
+  IF api \in HttpObjApis \/ c.kind = "objects" THEN KeySetOf(c)
   ELSE CASE c.kind = "versions" -> {r.k : r \in History(c.prog).rows}
          [] c.kind = "uploads"  -> {c.ups[i] : i \in 1..Len(c.ups)}
          [] c.kind = "parts"    -> {}
